@@ -300,6 +300,7 @@ def stepOp (st : DriverState) (toks : List String) : DriverState × String :=
   | ["G", entry, pfx, count, rb, nrb, osz] => (st, opGensalt st entry pfx count rb nrb osz)
   | ["K", s] => (st, opChecksalt st.cfg s)
   | ["KE", s] => (st, opChecksaltEnum st.cfg s)
+  | ["ERRNO", _] => (st, "ok")   -- errno on entry is not an input of any modelled function
   | ["CFG", ms] =>
     let names := ms.splitOn ","
     let en : Method → Bool := fun m => names.contains m.name
